@@ -2,7 +2,7 @@ import AbtemVerif.Model.Proto
 import AbtemVerif.Model.ArrayObject
 open AbtemVerif AbtemVerif.Proto AbtemVerif.ArrObj
 
-/- object : `<baseDims> <shape a,b,c|_> <axes>` with axes `;`-separated (`~` = none): `O<label>:<v1,v2|_>` | `T<tag>` | `U`;
+/- object : `<baseDims> <shape a,b,c|_> <axes>` with axes `;`-separated (`~` = none): `O<label>:<v1,v2|_>` | `T<tag>` | `N<tag>:<offset>:<sampling>` (linear axis, exact rationals) | `U`;
             data = 0,1,2,… (row-major provenance), offset by `<off>` where given
    requests: `get <obj> <T|F keepdims> <items>`   items `;`-separated (`~` = none): `i<int>` | `s<a>:<b>:<c>` (empty = None) | `n` | `l<i,j|_>` | `e`
              `expand <obj> <axes ints> <newaxes|default>`
@@ -14,6 +14,14 @@ open AbtemVerif AbtemVerif.Proto AbtemVerif.ArrObj
 def pAxis (s : String) : Option Axis :=
   if s = "U" then some .unknown
   else if s.startsWith "T" then (parseInt? (s.drop 1).toString).map Axis.other
+  else if s.startsWith "N" then
+    match (s.drop 1).toString.splitOn ":" with
+    | [t, off, samp] => do
+        let t ← parseInt? t
+        let off ← parseRat? off
+        let samp ← parseRat? samp
+        pure (.linear t off samp)
+    | _ => none
   else if s.startsWith "O" then
     match (s.drop 1).toString.splitOn ":" with
     | [l, vs] => do
@@ -59,6 +67,7 @@ def pObj (bd shape axes : String) : Option Obj := do
 def showAxis : Axis → String
   | .unknown => "U"
   | .other t => s!"T{t}"
+  | .linear t off samp => s!"N{t}:{showRat off}:{showRat samp}"
   | .ordinal l vs => s!"O{l}:{showList showInt vs}"
 
 def showObj : Except Err Obj → String
